@@ -685,25 +685,25 @@ def sweep_cases(tier, seed):
 
 
 SUBS = [
-    Sub(name="distributor", check=check_distributor, strategy=distributor_recipes, quick=6000, thorough=160000, shards=4,
+    Sub(name="distributor", check=check_distributor, strategy=distributor_recipes, quick=8000, thorough=160000, shards=4,
         rule="PowerDistributor(target, power_space|None, space|None) on a 1-3 space product (harmonic space anywhere; "
              "passengers position-RG / Unstructured / small harmonic), natural / custom / useful binning, float / "
              "complex / integer values: times == explicit loop x[bin(pixel)] (bit-exact), adjoint == explicit per-bin "
              "sums, domain = target with the space replaced by the PowerSpace; non-trivial = custom binbounds or "
              "product domain or complex values"),
-    Sub(name="analyze", check=check_analyze, strategy=lambda tier: analyze_recipes(tier, False), quick=6000,
+    Sub(name="analyze", check=check_analyze, strategy=lambda tier: analyze_recipes(tier, False), quick=8000,
         thorough=160000, shards=4,
         rule="power_analyze(f, spaces, binbounds) for f = distributed dyadic amplitude x random signs (real, int) or "
              "unit phases (complex) on a 1-3 space product, analysing one / several / all harmonic spaces given as "
              "None / int / tuple / list in either order, bounds as list/tuple/ndarray: result == amplitude^2 on the "
              "domain with analysed spaces replaced by PowerSpace(space, binbounds), real dtype; non-trivial = custom "
              "binbounds or product domain or complex field"),
-    Sub(name="analyze_phase", check=check_analyze, strategy=lambda tier: analyze_recipes(tier, True), quick=4000,
+    Sub(name="analyze_phase", check=check_analyze, strategy=lambda tier: analyze_recipes(tier, True), quick=4800,
         thorough=100000, shards=3,
         rule="keep_phase_information=True: f = +-a1[bin] +- 1j a2[bin] must give a1^2 + 1j a2^2; free unit phases must "
              "give non-negative parts with Re + Im == spectrum; a real field is rejected with ValueError or gives "
              "p + 0j; non-trivial = custom binbounds or product domain or complex field"),
-    Sub(name="power_operator", check=check_power_operator, strategy=operator_recipes, quick=4000, thorough=100000,
+    Sub(name="power_operator", check=check_power_operator, strategy=operator_recipes, quick=4800, thorough=100000,
         shards=3,
         rule="create_power_operator(domain as Domain/tuple/list/DomainTuple, spectrum Field on natural/custom/useful "
              "PowerSpace (positive / with zeros / signed / complex values) or callable c0+c1 k+c2 k^2, space, "
